@@ -130,11 +130,18 @@ func runOp3(c *hlib.Ctx, st *state3, m *model3d.Mesh, forced int) result3 {
 			BoundaryDistance:   []float64{0.01, 0.1, 0.5}[c.Rng.Intn(3)],
 			NoEdgePreservation: c.Rng.Intn(3) == 0,
 			EliminateCorners:   c.Rng.Intn(3) == 0,
-			SplitAttempts:      []int{0, 0, 3}[c.Rng.Intn(3)],
+			SplitAttempts:      []int{0, 2, 3}[c.Rng.Intn(3)],
 			MinimumAspectRatio: []float64{0, 0, 0.01, 0.3}[c.Rng.Intn(4)],
 		}
 		if ids != nil {
 			d.FilterFunc = func(p model3d.Coord3D) bool { return !keep[p] }
+		}
+		if len(usedIDs3(st.soup)) > 12 {
+			// the valences GROW while vertices are removed (flat regions), so a bound on the input
+			// valences is not enough: with more than 12 vertices a hole can have more than 11 corners
+			// (one thorough run in ~20 spent > 10 s in a 180-face twice-squashed icosphere, depending
+			// on Go's map order)
+			d.SplitAttempts = 0
 		}
 		for k := range valences3(m) {
 			if k > 7 {
@@ -379,6 +386,7 @@ func runOp3(c *hlib.Ctx, st *state3, m *model3d.Mesh, forced int) result3 {
 			return r
 		}
 		emitArapOp(c, st, m)
+		emitArapLin(c, st, m, st.exact)
 		if forceSeq || c.Rng.Intn(2) == 0 {
 			runArapSeq(c, st, m, vs, &r)
 			return r
@@ -391,19 +399,26 @@ func runOp3(c *hlib.Ctx, st *state3, m *model3d.Mesh, forced int) result3 {
 		}
 		cons, rigid, off := arapTargets(c, handles)
 		var mapping map[model3d.Coord3D]model3d.Coord3D
+		// linear scheme: uniform or |cot| (a positive definite system); rotation scheme: the same, or
+		// (one call in three) any of the three - NewARAPWeighted(mesh, linear, rotation)
+		lin := []int{2, 1}[c.Rng.Intn(2)]
+		rot := lin
+		if c.Rng.Intn(3) == 0 {
+			rot = c.Rng.Intn(3)
+		}
+		schemeTag := ""
+		if rot != lin {
+			schemeTag = ":deform(" + arapSchemeNames[lin] + "/" + arapSchemeNames[rot] + ")"
+			c.Stat("arap-deform-with-mixed-schemes", 1)
+		}
 		r.status = watchdog(func() {
-			var a *model3d.ARAP
-			if c.Rng.Intn(2) == 0 {
-				a = model3d.NewARAPWeighted(m, model3d.ARAPWeightingUniform, model3d.ARAPWeightingUniform)
-			} else {
-				a = model3d.NewARAPWeighted(m, model3d.ARAPWeightingAbsCotangent, model3d.ARAPWeightingAbsCotangent)
-			}
+			a := model3d.NewARAPWeighted(m, arapSchemes[lin], arapSchemes[rot])
 			a.SetMaxIterations(30)
 			r.out = a.Deform(cons)
 			mapping = a.DeformMap(cons, nil)
 		})
 		r.cons = sortedCons(cons)
-		r.params = []string{fmt.Sprintf("deform,rigid=%v", rigid)}
+		r.params = []string{fmt.Sprintf("deform,rigid=%v,schemes=%s/%s", rigid, arapSchemeNames[lin], arapSchemeNames[rot])}
 		if r.status == "ok" {
 			// positional constraints must be met exactly
 			keys := make([]model3d.Coord3D, 0, len(cons))
@@ -425,9 +440,9 @@ func runOp3(c *hlib.Ctx, st *state3, m *model3d.Mesh, forced int) result3 {
 					}
 				}
 				if worst < 1e-3 {
-					c.Stat("arap-rigid-translation-reproduced(near,validation-only)", 1)
+					c.Stat("arap-rigid-translation-reproduced(near,validation-only)"+schemeTag, 1)
 				} else {
-					c.Stat("arap-rigid-translation-NOT-reproduced(near,validation-only)", 1)
+					c.Stat("arap-rigid-translation-NOT-reproduced(near,validation-only)"+schemeTag, 1)
 				}
 			}
 		}
